@@ -73,6 +73,9 @@ type c10Shape struct {
 	ViaAPI      bool   `json:"published_through_api"`
 	EmptyActive bool   `json:"empty_active_segment,omitempty"` // background cleaner rolls the full active segment
 	Batch       int    `json:"append_batch"`
+	// CleanWaiting: run Clean() (compaction / retention) while a subscription
+	// is waiting at the HW, just before the fence is appended.
+	CleanWaiting bool `json:"clean_while_subscription_waits,omitempty"`
 }
 
 func (s c10Shape) label() string {
@@ -406,6 +409,14 @@ func c10SegmentBases(l commitlog.CommitLog) (bases []int64) {
 // became committed (ascending).
 func (e *c10Env) fence(before *c10State) ([]c10Msg, error) {
 	l := e.p.log
+	if e.shape.CleanWaiting {
+		// retained messages above the HW (the tail) are never removed by
+		// Clean(), so what must be delivered after the fence does not change
+		if err := l.Clean(); err != nil {
+			return nil, fmt.Errorf("Clean: %v", err)
+		}
+		e.rep.Count("clean_while_subscription_waits", 1)
+	}
 	if !l.IsReadonly() {
 		if e.shape.ViaAPI {
 			if err := e.publishAPI(); err != nil {
@@ -963,3 +974,10 @@ func (e *c10Env) causeReverse(st *c10State, s c10Start, t c10Stop, sReq, upper i
 }
 
 const c10CauseCap = 4
+
+// c10Unattributed counts violations that no known-cause predicate explains;
+// after c10UnattributedCap of them the units stop issuing requests (the run
+// fails anyway; this keeps the output of a broken tree readable).
+var c10Unattributed atomic.Int64
+
+const c10UnattributedCap = 12
